@@ -13,22 +13,23 @@ Signatures are *minimal*: when a case of failure class K fails, the driver
 re-enumerates K's sub-domain in the global simplest-first order (independent
 of sharding) and reports the first failing case.
 
-Mutations caught: (filled in by the builder, see bottom of this docstring)
+Mutations caught (each in a private copy, ``VF_REPO=... ./check C38``; all gave new VIOLATION signatures):
 
-* ``_list_decorators.__delitem__``: slice branch fires ``__del`` for
-  ``self[index]`` replaced by ``self[index][1:]`` (first item of a deleted
-  slice gets no remove event)            -> VIOLATION (events, list delslice)
-* ``_list_decorators.pop``: ``__del`` dropped (pop fires no remove event)
-                                          -> VIOLATION (events, list pop)
-* ``_set_decorators.discard``: ``if value in self`` inverted to always fire
-                                          -> VIOLATION (events, set discard)
-* ``_dict_decorators.__setitem__``: ``if key in self`` removal event dropped
-  (replaced value not removed)           -> VIOLATION (events, dict setitem)
-* ``_dict_decorators.update``: ``is not`` -> ``!=`` ... see report
-* ``_list_decorators.insert``: ``fn(self, index, value)`` -> ``fn(self, index + 1, value)``
-                                          -> VIOLATION (result, list insert)
-* ``_set_decorators.intersection_update``: ``remove, add = have - want, want - have``
-  -> ``remove = have`` ...                -> VIOLATION (result/events)
+* ``_list_decorators.pop``: the ``__del(self, item, None, index)`` call dropped (pop fires no remove event)
+* ``_list_decorators.__setitem__`` (index form): remove event for the replaced item dropped
+* ``_dict_decorators.pop``: ``if _to_del`` -> ``if item is not None`` (pop(k, default) on a missing key fires remove(default))
+* ``_set_decorators.intersection_update``: ``remove, add = have - want, want - have`` swapped
+* ``_dict_decorators.__setitem__``: ``if key in self: __del(...)`` dropped (replaced value gets no remove event)
+* ``_list_decorators.__delitem__`` (slice form): events computed from ``self[start:stop]`` ignoring the step
+* ``CollectionAttributeImpl.set``: the ``old is orig_iterable`` early return for in-place operators removed
+* ``_set_decorators.discard``: membership test dropped (remove event fired for non-members)
+* ``_dict_decorators.setdefault``: returns the passed default instead of the existing value
+* ``_list_decorators.__iadd__``: only the first element of the iterable appended
+
+Genuine defects found on the unchanged tree (reported, see /verif/proposed_fixes/c38_*.diff): slice assignment
+(start/stop clamping, negative/zero step, iterators, ``value is self``), ``list.remove(non-member)`` fires a remove
+event, ``list *= 0`` and ``dict |= other`` fire no events, ``set.update()/intersection_update()/difference_update()``
+arity, ``set -= itself``.
 """
 from __future__ import annotations
 
@@ -641,7 +642,8 @@ PREFIX = dict(
         ["setitem", -1, "u"],
         ["clear"],
     ],
-    set=[["add", "u"], ["pop"], ["discard", "k0"], ["ior", ["set", ["u", "v"]]], ["clear"], ["ixor", ["set", ["k0", "u"]]]],
+    # (no set.pop() as a prefix: which member it removes depends on object addresses)
+    set=[["add", "u"], ["discard", "k1"], ["discard", "k0"], ["ior", ["set", ["u", "v"]]], ["clear"], ["ixor", ["set", ["k0", "u"]]]],
     adict=[["setitem", "m", "u"], ["delitem", "a"], ["popitem"], ["setitem", "a", "u"], ["update", ["dict", [["m", "u"], ["n", "v"]]], None], ["clear"]],
 )
 PREFIX["cdict"] = PREFIX["adict"]
@@ -782,15 +784,19 @@ def minimal(ckind, family, sub, oclass, aspect, tier, trigger):
     if key in _MIN:
         return _MIN[key]
     found = None
-    for s2, case in family_cases(ckind, family, tier):
-        if s2 != sub:
-            continue
-        problems, info = run_case(case)
-        if _oclass(family, info["plain_outcome"]) != oclass:
-            continue
-        hit = [p for p in problems if p[0] == aspect]
-        if hit:
-            found = (case, hit[0][1])
+    # the quick domain is searched first in every tier, so that both tiers report the same signature
+    for t in ("quick", tier) if tier != "quick" else ("quick",):
+        for s2, case in family_cases(ckind, family, t):
+            if s2 != sub:
+                continue
+            problems, info = run_case(case)
+            if _oclass(family, info["plain_outcome"]) != oclass:
+                continue
+            hit = [p for p in problems if p[0] == aspect]
+            if hit:
+                found = (case, hit[0][1])
+                break
+        if found:
             break
     if found is None:
         found = trigger
